@@ -291,6 +291,22 @@ pub fn driver_main(binary: &str, runner: fn(&PItem)) {
 
 /// Per-child roles. `nv` / `al` / `eg` are bit masks over the first 64 positions; `nvp` / `alp` are
 /// dot separated position lists for wider containers (`nvp=0.64.199`).
+/// The shape of the container handed to the crate is part of the input: Vecs with an odd number of children (and
+/// every Vec when `sc=1`) carry spare capacity (len < capacity), the others are exact (`sc=0` forces exact).
+pub fn shape_vec<T>(item: &PItem, v: Vec<T>) -> Vec<T> {
+    let spare = match item.kv.get("sc").map(|s| s.as_str()) {
+        Some("1") => true,
+        Some("0") => false,
+        _ => v.len() % 2 == 1,
+    };
+    if !spare {
+        return v;
+    }
+    let mut out = Vec::with_capacity(v.len() + 5);
+    out.extend(v);
+    out
+}
+
 pub fn spec_for(item: &PItem, slot: usize) -> Spec {
     let bit = |name: &str| -> bool { slot < 64 && (item.u(name, 0) >> slot) & 1 == 1 };
     let pos = |name: &str| -> bool { item.s(name).split('.').filter(|s| !s.is_empty()).any(|s| s.parse::<usize>().ok() == Some(slot)) };
